@@ -467,6 +467,9 @@ def ast_features(c):
                 feats.add('alter-empty')
             if cls == 'NestedQLBlock':
                 feats.add('nested-ql-block')
+            for kf in SETLIKE:
+                if isinstance(d.get(kf), list) and len(set(json.dumps(z) for z in d[kf])) != len(d[kf]):
+                    feats.add('kinds-duplicate')
             if cls.startswith('CreateConcrete') and d.get('declared_overloaded') is True and _is_node(d.get('target')) \
                     and not d['target'][0].startswith('Type'):
                 feats.add('sdl-overloaded-computed')
@@ -797,7 +800,9 @@ def explore_one(entry, text):
         except Exception as e:
             fails.append({'mode': mname, 'kind': 'print-error', 'detail': 'second print: ' + type(e).__name__})
             continue
-        if s2 != s1 and 'empty-shape' in res['feats']:
+        if s2 != s1 and ('empty-shape' in res['feats'] or 'kinds-duplicate' in res['feats']):
+            # (N4/N6: a kind list with duplicates -- `rewrite insert, update, update` -- gives the rewrite a different derived
+            # name, hence a different place in a sorted SDL body, than the list the parser reads back)
             # N2/N2' changed the tree (`(.a {}).b` is printed `(.a).b`, which the grammar reads as the one partial path
             # `.a.b`): the first print is made from a tree the parser never builds again, so byte stability is asked
             # of the NEXT round instead: print(parse(S2)) == S2 and the same (normalised) tree.
